@@ -271,8 +271,8 @@ Theorem c08_code_is_model : forall (E D : bytes -> bytes -> bytes)
   (forall d, g_PKCS5UnPadding X d = bytes_res (pkcs5_unpad d)).
 Proof.
   intros E D seal open X.
-  exact (conj (code_init_fuel E D seal open) (conj code_AESCBCEncryptLen (conj code_AESCBCDecryptLen (conj code_AESGCMEncryptLen
-        (conj code_AESGCMDecryptLen (conj (code_pkcs7UnPadding E D seal open) (conj (code_AESCBCEncrypt_prep E D seal open)
+  exact (conj (code_init_fuel E D seal open) (conj (code_AESCBCEncryptLen E D seal open) (conj (code_AESCBCDecryptLen E D seal open) (conj (code_AESGCMEncryptLen E D seal open)
+        (conj (code_AESGCMDecryptLen E D seal open) (conj (code_pkcs7UnPadding E D seal open) (conj (code_AESCBCEncrypt_prep E D seal open)
         (conj (code_AESCBCEncrypt E D seal open) (conj (code_AESCBCDecrypt E D seal open) (conj (code_AESGCMEncrypt E D seal open)
         (conj (code_AESGCMDecrypt E D seal open) (conj (code_PKCS7Padding E D seal open) (conj (code_PKCS7UnPadding E D seal open)
         (conj (code_PKCS5Padding E D seal open) (code_PKCS5UnPadding E D seal open))))))))))))))).
